@@ -25,6 +25,9 @@ structure DSt where
   deleted : Bool        -- the object was removed from the key beacon (stale-object scenario)
   resurrected : Bool
   cleared : Bool        -- its content was cleared by the delete (persisted record)
+  /-- fact: the body re-checks its object under the guard and starts over on a fresh one -/
+  recheck : Bool
+  fresh : Bool          -- a re-checking call replaced the deleted object by a new one
 
 def tidOf (n : String) : Option Nat :=
   match n with | "A" => some 1 | "B" => some 2 | "C" => some 3 | "D" => some 4 | _ => none
@@ -101,6 +104,16 @@ def stepThread (d : DSt) (name : String) (fetch : Bool) : DSt × String :=
       let d := if known.isNone then { d with ths := d.ths ++ [u] } else d
       let ts := d.s.th t
       if ts.pc ≥ 5 || (ts.pc == 4 && u.wleft > 0) then (d, render d name "blocked") else
+      -- repaired body: the fetched object is gone → one aborted session on the orphan's guard, then a new
+      -- object (CreateTreasure takes and releases its guard once) whose guard is observed from now on
+      let d := if d.recheck && ts.pc == 0 && u.fetchedOnly && d.deleted && !d.fresh then
+          let s0 := { d.s with g := Hv.Guard.init, val := 0 }
+          match Hv.Lin.step (cfgOf d) op s0 .envStart with
+          | some s1 => match Hv.Lin.step (cfgOf d) op s1 (.envRelease s1.g.nextSid) with
+            | some s2 => { d with s := s2, fresh := true, cleared := true }
+            | none => d
+          | none => d
+        else d
       match stepL d (.th t) with
       | none => (d, render d name "blocked")
       | some s' =>
@@ -113,7 +126,7 @@ def stepThread (d : DSt) (name : String) (fetch : Bool) : DSt × String :=
         let res := d.resurrected || (d.deleted && ts.pc == 3)
         let d1 := settle 16 { d with s := s', ths := ths, resurrected := res }
         let u1 := (d1.ths.find? (·.tid == t)).getD u
-        let stale := d1.deleted && !d1.cleared && (d1.s.th t).pc == 5
+        let stale := d1.deleted && !d1.fresh && !d1.cleared && (d1.s.th t).pc == 5
         (d1, render d1 name (showState d1 u1) ++ lostFlag d1 ++
           (if stale then "\t#F:C09-delete-increment-stale-object" else ""))
 
@@ -121,7 +134,7 @@ def step (d : DSt) (line : String) : DSt × String :=
   match words line with
   | ["case", _, mode, kind] =>
     ({ d with mode := mode, kind := kind, s := Hv.Lin.init 5, ths := [], deleted := false, resurrected := false,
-              cleared := false }, line)
+              cleared := false, fresh := false }, line)
   | ws =>
     if d.mode == "sched" then
       match ws with
@@ -141,7 +154,7 @@ def step (d : DSt) (line : String) : DSt × String :=
             (d', "del DELETED v=absent")
       | ["reload"] =>
         if d.kind == "m" then (d, "reload v=absent")
-        else if d.kind == "p0" && d.deleted && d.resurrected then
+        else if d.kind == "p0" && d.deleted && d.resurrected && !d.fresh then
           -- the orphan still carries DeletedAt: the chronicler wrote a delete entry for the acknowledged increment
           (d, "reload v=absent\t#F:C09-delete-increment-stale-object")
         else (d, s!"reload v={showVal d}")
@@ -166,7 +179,7 @@ def run (args : List String) : IO UInt32 := do
   let kv := parseArgs args
   lineLoop step { resets := arg kv "resetsIdOnEmpty" == "yes", relWhenImm := arg kv "releasesGuardWhenImmediate" != "no",
                   mode := "", kind := "", s := Hv.Lin.init 5, ths := [], deleted := false, resurrected := false,
-                  cleared := false }
+                  cleared := false, recheck := arg kv "rechecksObjectUnderGuard" == "yes", fresh := false }
   return 0
 
 end Driver.C09
